@@ -17,6 +17,7 @@ package stall
 
 import (
 	"bufio"
+	"bytes"
 	crand "crypto/rand"
 	"encoding/json"
 	"fmt"
@@ -38,32 +39,46 @@ import (
 )
 
 // stalledDevice delivers `deliver` bytes (in reads of at most `chunk`), then
-// blocks for `stall` of simulated time, then fails.
+// blocks for `stall` of simulated time, and then either fails or - a slow but
+// healthy source - resumes where it stopped.
 type stalledDevice struct {
 	seed      uint64
 	deliver   int
 	chunk     int
 	stall     time.Duration
+	resume    bool
 	delivered int
 	blocked   bool
-	gaveUp    bool
+	gaveUp    bool // the stall is over (the device failed or resumed)
 }
 
+const streamLen = 256
+
 func (d *stalledDevice) Read(p []byte) (int, error) {
-	if d.delivered >= d.deliver {
+	limit := d.deliver
+	if d.gaveUp && d.resume {
+		limit = streamLen
+	}
+	if d.delivered >= limit {
+		if d.gaveUp {
+			return 0, fmt.Errorf("simulated entropy device: exhausted")
+		}
 		d.blocked = true
 		time.Sleep(d.stall)
 		d.gaveUp = true
-		return 0, fmt.Errorf("simulated entropy device: gave up after stalling for %v", d.stall)
+		if !d.resume {
+			return 0, fmt.Errorf("simulated entropy device: gave up after stalling for %v", d.stall)
+		}
+		limit = streamLen
 	}
 	n := len(p)
 	if d.chunk > 0 && n > d.chunk {
 		n = d.chunk
 	}
-	if n > d.deliver-d.delivered {
-		n = d.deliver - d.delivered
+	if n > limit-d.delivered {
+		n = limit - d.delivered
 	}
-	b := kernel.Expand(d.seed, d.deliver)
+	b := kernel.Expand(d.seed, streamLen)
 	copy(p, b[d.delivered:d.delivered+n])
 	d.delivered += n
 	return n, nil
@@ -116,6 +131,7 @@ func runOne(t *testing.T, prop string, verifSeed uint64, idx int, src map[string
 		chunk:   []int{0, 1, 7, 16}[tp.Choose("ops", "dev.chunk", 4)],
 		stall:   []time.Duration{time.Second, time.Minute, time.Hour, 1000 * time.Hour}[tp.Choose("ops", "dev.stall", 4)],
 	}
+	dev.resume = tp.Chance("ops", "dev.resumes", 1, 3) // slow but healthy: delivers the rest after the stall
 	observeAfter := []time.Duration{time.Millisecond, 5 * time.Second, 10 * time.Minute}[tp.Choose("ops", "observe_after", 3)]
 	selfVerify := tp.Chance("ops", "self_verify", 1, 4)
 	viaGlobal := tp.Chance("ops", "via_crypto_rand_Reader", 1, 4) // rand == nil: the library reads crypto/rand.Reader, which is the stalled device
@@ -123,7 +139,7 @@ func runOne(t *testing.T, prop string, verifSeed uint64, idx int, src map[string
 	if schnorr {
 		who = "Schnorr Sign"
 	}
-	run.Hist("key=%x digest=%x signer=%s self_verify=%v rand_is_nil=%v device: %d bytes in reads of at most %d, then stalls for %v; first look after %v of simulated time", ref.I2OSP32(d), digest, who, selfVerify, viaGlobal, dev.deliver, dev.chunk, dev.stall, observeAfter)
+	run.Hist("key=%x digest=%x signer=%s self_verify=%v rand_is_nil=%v device: %d bytes in reads of at most %d, then stalls for %v, then %s; first look after %v of simulated time", ref.I2OSP32(d), digest, who, selfVerify, viaGlobal, dev.deliver, dev.chunk, dev.stall, map[bool]string{false: "fails", true: "resumes"}[dev.resume], observeAfter)
 	run.Fault("entropy_reader_stalls")
 	run.Fault(fmt.Sprintf("stall_%v", dev.stall))
 	if dev.chunk > 0 {
@@ -139,6 +155,28 @@ func runOne(t *testing.T, prop string, verifSeed uint64, idx int, src map[string
 	}
 	spriv := bitcoin.NewSchnorrPrivateKeyFromECDSA(priv)
 
+	// what the same key, digest and entropy stream give with a prompt reader
+	sign := func(rd io.Reader) ([]byte, error) {
+		switch {
+		case schnorr:
+			return spriv.Sign(rd, digest, nil)
+		case selfVerify:
+			return priv.Sign(rd, digest, &secec.ECDSAOptions{SelfVerify: true})
+		}
+		return priv.Sign(rd, digest, nil)
+	}
+	var want []byte
+	if dev.resume {
+		run.Fault("reader_resumes_after_stall")
+		w, werr := sign(bytes.NewReader(kernel.Expand(dev.seed, streamLen)))
+		if werr != nil {
+			run.Violate(prop, "healthy-device-failure", who, 0, "%s failed with a prompt, healthy entropy reader: %v", who, werr)
+			run.Finish()
+			res.Tape = tp.Record()
+			return res
+		}
+		want = w
+	}
 	if viaGlobal {
 		run.Fault("crypto_rand_Reader_stalls")
 		saved := crand.Reader
@@ -218,6 +256,19 @@ func runOne(t *testing.T, prop string, verifSeed uint64, idx int, src map[string
 	switch {
 	case o.panicMsg != "":
 		run.Violate(prop, "sign-panic", who, 1, "%s panicked with a stalling entropy reader: %s", who, o.panicMsg)
+	case dev.resume && o.err == nil && !o.stalledAt:
+		// the reader was slow, not broken: when and in which pieces the 32
+		// bytes arrive must not show in the signature
+		run.Probe("waited_for_slow_reader_then_signed")
+		if !bytes.Equal(o.sig, want) {
+			run.Violate(prop, "slow-reader-changes-signature", who, 1, "%s waited %v for a slow entropy reader and returned %x; the same key, digest and entropy bytes from a prompt reader give %x: the signature must be a function of (key, digest, the 32 bytes delivered), not of when they arrive", who, o.at, o.sig, want)
+		}
+		if dev.delivered != 32 {
+			run.Violate(prop, "entropy-consumption", who, 1, "%s consumed %d bytes of a slow entropy reader, not 32", who, dev.delivered)
+		}
+	case dev.resume && o.err != nil && !o.stalledAt:
+		// failing although the reader recovered: fails closed, only counted
+		run.Probe("failed_although_slow_reader_recovered")
 	case o.err == nil && o.stalledAt:
 		run.Violate(prop, "signed-despite-stalled-reader", who, 1, "%s returned a signature after %v of simulated time although its entropy reader had delivered only %d of 32 bytes and was still blocked (it stalls for %v): the nonce must depend on exactly 32 bytes of caller entropy - the signer waits for its reader or fails with it, it does not go on without", who, o.at, dev.delivered, dev.stall)
 	case o.err == nil:
@@ -236,7 +287,7 @@ func runOne(t *testing.T, prop string, verifSeed uint64, idx int, src map[string
 	run.Finish()
 	res.WallUS = time.Since(start).Microseconds()
 	res.Tape = tp.Record()
-	res.Sig = fmt.Sprintf("%d/%d/%v/%v/%v/%v", dev.deliver, dev.chunk, dev.stall, observeAfter, selfVerify, viaGlobal)
+	res.Sig = fmt.Sprintf("%d/%d/%v/%v/%v/%v/%v", dev.deliver, dev.chunk, dev.stall, observeAfter, selfVerify, viaGlobal, dev.resume)
 	return res
 }
 
